@@ -26,7 +26,7 @@ def gen_elem(rnd, opt):
         return t + '@-' + str(rnd.choice([0, 2, 5]))
     if rnd.random() >= opt.get('p_noname', .1):
         e['name'] = rnd.choice(opt['names'])
-        if num and rnd.random() < num * .4 and e['name'] not in VOID: e['name'] = rnd.choice(['h', 'item', 'x-']) + numtok()
+        if num and rnd.random() < num * .4 and e['name'] not in VOID: e['name'] = rnd.choice(['h', 'item', 'x-', 'Item', 'Box', 'My-']) + numtok()
     k = rnd.random()
     if e['name'] is None or k < opt.get('p_class', .3):
         for _ in range(rnd.choice([1, 1, 2])):
@@ -189,8 +189,8 @@ def unroll(forest, counter=None, budget=None):
 # ------------------------------------------------------------------------------------------------- aliases (user snippets)
 # definitions of the user snippets used by the C01 / C02 alias cases, with the tree each one denotes ('K' = where the children written on
 # the alias go: the deepest last element)
-ALIAS_SNIPPETS = {'card': 'div>section', 'wrap': 'section>article>div', 'pair2': 'dl>dt+dd', 'solo': 'aside'}
-ALIAS_TREES = {'card': ('div', [('section', ['K'])]), 'wrap': ('section', [('article', [('div', ['K'])])]), 'pair2': ('dl', [('dt', []), ('dd', ['K'])]), 'solo': ('aside', ['K'])}
+ALIAS_SNIPPETS = {'card': 'div>section', 'wrap': 'section>article>div', 'pair2': 'dl>dt+dd', 'solo': 'aside', 'note': '{Note:}'}
+ALIAS_TREES = {'card': ('div', [('section', ['K'])]), 'wrap': ('section', [('article', [('div', ['K'])])]), 'pair2': ('dl', [('dt', []), ('dd', ['K'])]), 'solo': ('aside', ['K']), 'note': (None, ['K'])}
 
 
 def apply_alias(forest, table=ALIAS_TREES):
@@ -198,7 +198,7 @@ def apply_alias(forest, table=ALIAS_TREES):
     definition, its children into the deepest last element"""
     def build(d, el, kids, top):
         name, ch = d
-        node = {'name': name, 'mentions': list(el['mentions']) if top else [], 'text': el['text'] if top else None, 'slash': False, 'kids': []}
+        node = {'name': name, 'mentions': list(el['mentions']) if top else [], 'text': (el['text'] if top else None) if name else 'Note:', 'slash': False, 'kids': []}
         for c in ch:
             if c == 'K': node['kids'] += kids
             else: node['kids'].append(build(c, el, kids, False))
@@ -218,6 +218,7 @@ def implicit_names(forest, parent, inline):
     """an element written with attributes but no name gets the documented implicit name for its parent"""
     for el in forest:
         if not el['name'] and not el['mentions'] and el['text'] is not None:
+            implicit_names(el['kids'], parent, inline)      # a text node is transparent: its children (possible through an alias only) see its parent
             continue                                   # a text-only node `{text}` is not an element and gets no name
         if not el['name']:
             p = (parent or '').lower()
@@ -231,6 +232,8 @@ def implicit_names(forest, parent, inline):
 def tag_sequence(forest, void=VOID):
     seq = []
     for el in forest:
+        if not el['name']:
+            seq += tag_sequence(el['kids'], void); continue
         seq.append(('open', el['name'].lower()))
         if (el['name'].lower() in void or el['slash']) and not el['kids']: continue       # a self-closing element that was given children is written as a pair
         seq += tag_sequence(el['kids'], void)
